@@ -178,6 +178,63 @@ def fam_innode_partial_and_multi_input():
     return out
 
 
+def fam_output_designation():
+    """two nodes whose first operators have the same equations and the same variable declarations and differ only in WHICH
+    variable is the output (u in one node, v in the other); the second operator reads u and v: in each node exactly the
+    input named like that node's output is fed from inside the node, the other one keeps its default / its edge"""
+    import copy
+    out = []
+    for variant in range(2):
+        fp = FP()
+        e_u = X.add(X.mul(X.neg(V('la')), V('u')), V('inp'))
+        e_v = X.sub(X.mul(V('lb'), V('inp')), V('v'))
+        da = OpSpec('drva', [('u', 'de', e_u), ('v', 'de', e_v)],
+                    {'u': ('state', fp()), 'v': ('state', fp()), 'la': ('const', fp()), 'lb': ('const', fp()),
+                     'inp': ('input', fp())}, output='u')
+        db = copy.deepcopy(da)
+        db.name, db.output = 'drvb', 'v'
+        ops = {'drva': da, 'drvb': db, 'o1': op_two_inputs(fp, 'o1', u='u', w='v')}
+        nodes = {'n1': NodeSpec(['drva', 'o1'], {('drva', 'u'): fp(), ('drva', 'v'): fp(), ('o1', 'x'): fp()}),
+                 'n2': NodeSpec(['drvb', 'o1'], {('drvb', 'u'): fp(), ('drvb', 'v'): fp(), ('o1', 'x'): fp()})}
+        edges = [EdgeSpec('n1/o1/x', 'n2/drvb/inp', fp())]
+        if variant:
+            edges.append(EdgeSpec('n2/o1/x', 'n1/drva/inp', fp()))
+        out.append((f"F1:output-designation:{variant}", ModelSpec('m', ops, nodes, edges,
+                                                                 note="operators that differ only in their output variable")))
+    return out
+
+
+def fam_twin_operators():
+    """node types that hold two structurally identical operators (same equations and declarations, other values); the
+    nodes of one vectorization group call them differently (e/i in a0, a1; exc/inh in b0), in both declaration orders"""
+    out = []
+    for variant in range(2):
+        fp = FP()
+        ops = {n: op_leaky(fp, n) for n in ('e', 'i', 'exc', 'inh')}
+        mk = lambda names: NodeSpec(list(names), _node_overrides(fp, ops, list(names)))      # noqa
+        if variant == 0:
+            nodes = {'a0': mk(['e', 'i']), 'a1': mk(['e', 'i']), 'b0': mk(['exc', 'inh'])}
+        else:
+            nodes = {'b0': mk(['exc', 'inh']), 'a0': mk(['e', 'i']), 'a1': mk(['e', 'i'])}
+        edges = [EdgeSpec('a0/e/x', 'b0/exc/u', fp()), EdgeSpec('b0/inh/x', 'a1/i/u', fp()), EdgeSpec('a1/e/x', 'a0/i/u', fp())]
+        out.append((f"F1:twin-operators:{variant}", ModelSpec('m', ops, nodes, edges,
+                                                              note="two structurally identical operators per node, named differently across nodes")))
+    return out
+
+
+def fam_unused_constant():
+    """an operator that declares a constant its own equations do not mention; an edge reads it"""
+    fp = FP()
+    src = op_source(fp)
+    src.vars['r0'] = ('const', fp())
+    ops = {'src': src, 'li': op_leaky(fp)}
+    nodes = {'p': NodeSpec(['src'], _node_overrides(fp, ops, ['src'])), 'q': NodeSpec(['li'], _node_overrides(fp, ops, ['li'])),
+             'p2': NodeSpec(['src'], _node_overrides(fp, ops, ['src']))}
+    edges = [EdgeSpec('p/src/r0', 'q/li/u', fp()), EdgeSpec('q/li/x', 'q/li/u', fp())]
+    return [("F1:unused-constant-as-edge-source", ModelSpec('m', ops, nodes, edges,
+                                                            note="declared constant used by an edge only"))]
+
+
 def fam_mixed_nodes(seed=0, n=12):
     """F2b: 2-3 nodes of different operator structure (rpo+sg, li, two-input) with random edge sets incl. edges from
     two different variables of one node into one target variable, weight 1.0 / omitted / generic."""
